@@ -15,3 +15,58 @@ package namespaced
 //@   props C01
 //@   requires [wired] st != nil && st.namespaces != nil && st.builder != nil
 //@   ensures [one-instance-per-namespace] result == published(st.namespaces, ns)
+// (assumed: the state builder never returns nil, and nothing but this function publishes states)
+//@   assume [published-states-exist] published(st.namespaces, ns) != nil
+//@   ensures [state-exists] result != nil
+
+// C01: every operation is handed, unchanged, to the one state instance published for the namespace
+// the resource (pointer, kind) names; the namespaced state adds nothing of its own, so a history over
+// it is the disjoint union of the histories of its per-namespace states.
+//@ func (*State).Get
+//@   props C01
+//@   requires [wired] st != nil && st.namespaces != nil && st.builder != nil && ptr != nil
+//@   at Get #1
+//@     assert [routed-to-the-state-of-that-namespace] callrecv == published(st.namespaces, nsOf(ptr))
+//@     assert [request-forwarded-unchanged] callarg1 == ptr
+//@ func (*State).List
+//@   props C01
+//@   requires [wired] st != nil && st.namespaces != nil && st.builder != nil && kind != nil
+//@   at List #1
+//@     assert [routed-to-the-state-of-that-namespace] callrecv == published(st.namespaces, nsOf(kind))
+//@     assert [request-forwarded-unchanged] callarg1 == kind
+//@ func (*State).Create
+//@   props C01
+//@   requires [wired] st != nil && st.namespaces != nil && st.builder != nil && res != nil
+//@   at Create #1
+//@     assert [routed-to-the-state-of-that-namespace] callrecv == published(st.namespaces, mdOf(res).ns)
+//@     assert [request-forwarded-unchanged] callarg1 == res
+//@ func (*State).Update
+//@   props C01
+//@   requires [wired] st != nil && st.namespaces != nil && st.builder != nil && newResource != nil
+//@   at Update #1
+//@     assert [routed-to-the-state-of-that-namespace] callrecv == published(st.namespaces, mdOf(newResource).ns)
+//@     assert [request-forwarded-unchanged] callarg1 == newResource
+//@ func (*State).Destroy
+//@   props C01
+//@   requires [wired] st != nil && st.namespaces != nil && st.builder != nil && ptr != nil
+//@   at Destroy #1
+//@     assert [routed-to-the-state-of-that-namespace] callrecv == published(st.namespaces, nsOf(ptr))
+//@     assert [request-forwarded-unchanged] callarg1 == ptr
+//@ func (*State).Watch
+//@   props C01
+//@   requires [wired] st != nil && st.namespaces != nil && st.builder != nil && ptr != nil
+//@   at Watch #1
+//@     assert [routed-to-the-state-of-that-namespace] callrecv == published(st.namespaces, nsOf(ptr))
+//@     assert [request-forwarded-unchanged] callarg1 == ptr && callarg2 == ch
+//@ func (*State).WatchKind
+//@   props C01
+//@   requires [wired] st != nil && st.namespaces != nil && st.builder != nil && kind != nil
+//@   at WatchKind #1
+//@     assert [routed-to-the-state-of-that-namespace] callrecv == published(st.namespaces, nsOf(kind))
+//@     assert [request-forwarded-unchanged] callarg1 == kind && callarg2 == ch
+//@ func (*State).WatchKindAggregated
+//@   props C01
+//@   requires [wired] st != nil && st.namespaces != nil && st.builder != nil && kind != nil
+//@   at WatchKindAggregated #1
+//@     assert [routed-to-the-state-of-that-namespace] callrecv == published(st.namespaces, nsOf(kind))
+//@     assert [request-forwarded-unchanged] callarg1 == kind && callarg2 == ch
